@@ -79,6 +79,7 @@ func init() {
 			Stmt    bool   `json:"stmt"`
 			TxFail  bool   `json:"txfail"` // the transaction's body returns an error after its two calls: nothing of it may remain
 			Quiet   bool   `json:"quiet"`  // the replica has pulled everything before the run: sync answers carry no foreign operations
+			Grow    bool   `json:"grow"`   // the other replica pushes, as one more activity, an operation that builds on what it pushed before: the answers of overlapping syncs differ in length
 		}
 		json.Unmarshal(args, &a)
 		return schedScenario{name: "c20sync", build: func(x *schedExec) ([]activity, func() *pt.Violation, func() *pt.Violation, func()) {
@@ -113,6 +114,13 @@ func init() {
 			sync1(other)
 			if a.Quiet {
 				sync1(r)
+			}
+			if a.Grow {
+				if a.Type == "counter" {
+					other.cnt.IncreaseBy(10000)
+				} else {
+					other.li.Insert(1, "o3") // right behind "o2"
+				}
 			}
 			issued := 0
 			for i := 0; i < a.Pending; i++ {
@@ -194,6 +202,9 @@ func init() {
 				n := fmt.Sprintf("s%d-sync", i)
 				acts = append(acts, activity{name: n, f: guard(n, func() { sync1(r) })})
 			}
+			if a.Grow {
+				acts = append(acts, activity{name: "x-push", f: guard("x-push", func() { sync1(other) })})
+			}
 			atEnd := func() *pt.Violation {
 				mu.Lock()
 				defer mu.Unlock()
@@ -244,16 +255,20 @@ func init() {
 				if vr != vo {
 					return viol("C20:replicas-diverge-after-concurrent-syncs", "after the closing syncs the replica reads\n%s\nthe other replica\n%s\nschedule %v", vr, vo, x.trace)
 				}
+				foreign, fsum := 2, int32(1100)
+				if a.Grow {
+					foreign, fsum = 3, 11100
+				}
 				if a.Type == "counter" {
-					if got := r.cnt.Get(); got != sum+1100 {
-						return viol("C20:lost-update", "counter reads %d, successful calls and remote operations sum to %d; schedule %v", got, sum+1100, x.trace)
+					if got := r.cnt.Get(); got != sum+fsum {
+						return viol("C20:lost-update", "counter reads %d, successful calls and remote operations sum to %d; schedule %v", got, sum+fsum, x.trace)
 					}
 				} else {
 					b, _ := json.Marshal(r.li.ToJSON())
 					var l struct{ List []string }
 					json.Unmarshal(b, &l)
-					if len(l.List) != len(tags)+2 {
-						return viol("C20:lost-update", "list holds %v; inserted were %v and o1 o2; schedule %v", l.List, tags, x.trace)
+					if len(l.List) != len(tags)+foreign {
+						return viol("C20:lost-update", "list holds %v; inserted were %v and the other replica's o1 o2 (o3); schedule %v", l.List, tags, x.trace)
 					}
 				}
 				return nil
